@@ -27,6 +27,28 @@ use std::borrow::Cow;
 #[derive(Encode, Decode, CborLen, Debug, PartialEq)] #[cbor(map)] struct UnitM<T> { #[n(0)] id: u8, #[n(1)] extra: T }
 #[derive(Encode, Decode, CborLen, Debug, PartialEq)] enum UnitE { #[n(0)] Ping(#[n(0)] ()), #[n(1)] Mark(#[n(0)] std::marker::PhantomData<u8>, #[n(1)] u8) }
 
+/// a three-state user type: `Keep` is its nil value (left out by the derived encoder, filled in by `Decode::nil`), `Clear` is written as
+/// `null` — a present value, which only the type's own decoder can tell from a number
+#[derive(Debug, PartialEq, Clone, Copy)] enum Patch { Keep, Clear, Set(u8) }
+impl<C> Encode<C> for Patch {
+    fn encode<W: minicbor::encode::Write>(&self, e: &mut minicbor::Encoder<W>, _: &mut C) -> Result<(), minicbor::encode::Error<W::Error>> {
+        match self { Patch::Keep | Patch::Clear => e.null()?.ok(), Patch::Set(n) => e.u8(*n)?.ok() }
+    }
+    fn is_nil(&self) -> bool { matches!(self, Patch::Keep) }
+}
+impl<C> CborLen<C> for Patch { fn cbor_len(&self, ctx: &mut C) -> usize { match self { Patch::Set(n) => n.cbor_len(ctx), _ => 1 } } }
+impl<'b, C> Decode<'b, C> for Patch {
+    fn decode(d: &mut minicbor::Decoder<'b>, _: &mut C) -> Result<Self, minicbor::decode::Error> {
+        if d.datatype()? == minicbor::data::Type::Null { d.skip()?; Ok(Patch::Clear) } else { d.u8().map(Patch::Set) }
+    }
+    fn nil() -> Option<Self> { Some(Patch::Keep) }
+}
+#[derive(Encode, Decode, CborLen, Debug, PartialEq)] struct PatchA { #[n(0)] id: u8, #[n(1)] p: Patch, #[n(2)] q: Patch }
+#[derive(Encode, Decode, CborLen, Debug, PartialEq)] #[cbor(map)] struct PatchM { #[n(0)] id: u8, #[n(1)] p: Patch, #[n(2)] q: Patch }
+#[derive(Encode, Decode, CborLen, Debug, PartialEq)] enum PatchE { #[n(0)] V(#[n(0)] Patch, #[n(1)] Patch) }
+fn patch(s: &str) -> Option<Patch> { match s { "K" => Some(Patch::Keep), "C" => Some(Patch::Clear), _ => s.parse().ok().map(Patch::Set) } }
+fn show_patch(p: &Patch) -> String { match p { Patch::Keep => "K".into(), Patch::Clear => "C".into(), Patch::Set(n) => n.to_string() } }
+
 /// a nil-able type that is not SPELLED `Option<..>` (the macros decide some things from the spelling, others from the traits)
 type Maybe = Option<u8>;
 fn dec_maybe<'b, C>(d: &mut minicbor::Decoder<'b>, _: &mut C) -> Result<Maybe, minicbor::decode::Error> {
@@ -77,6 +99,9 @@ pub fn run(w: &[&str]) -> String {
         ("UnitPM", [id]) => rt(&UnitM::<std::marker::PhantomData<String>> { id: id.parse().ok()?, extra: std::marker::PhantomData }, |x| format!("{}", x.id)),
         ("UnitE", [k]) if *k == "ping" => rt(&UnitE::Ping(()), |x| match x { UnitE::Ping(()) => "ping".into(), _ => "other".into() }),
         ("UnitE", [n]) => rt(&UnitE::Mark(std::marker::PhantomData, n.parse().ok()?), |x| match x { UnitE::Mark(_, n) => format!("{}", n), _ => "other".into() }),
+        ("PatchA", [id, p, q]) => rt(&PatchA { id: id.parse().ok()?, p: patch(p)?, q: patch(q)? }, |x| format!("{},{},{}", x.id, show_patch(&x.p), show_patch(&x.q))),
+        ("PatchM", [id, p, q]) => rt(&PatchM { id: id.parse().ok()?, p: patch(p)?, q: patch(q)? }, |x| format!("{},{},{}", x.id, show_patch(&x.p), show_patch(&x.q))),
+        ("PatchE", [p, q]) => rt(&PatchE::V(patch(p)?, patch(q)?), |x| match x { PatchE::V(p, q) => format!("{},{}", show_patch(p), show_patch(q)) }),
         ("BoxMid", [p, id]) => rt(&BoxMid { parent: Box::new(opt_u8(p)?), id: id.parse().ok()? }, |x| format!("{},{}", show_opt(&x.parent), x.id)),
         ("FltA", [id, a, b]) => rt(&FltA { id: id.parse().ok()?, a: f32::from_bits(u32::from_str_radix(a, 16).ok()?), b: f64::from_bits(u64::from_str_radix(b, 16).ok()?) },
             |x| format!("{},{:08x},{:016x}", x.id, x.a.to_bits(), x.b.to_bits())),
